@@ -68,8 +68,11 @@ func H_C12_filter() {
 	vAssume(err == nil)
 	in := []eC17{{ID: 1, X: elemC06()}, {ID: 2, X: "ab"}, {ID: 3, X: []interface{}{vInt8()}}}
 	var data interface{} = in
-	if vBool() {
+	switch vChoose(3) {
+	case 1:
 		data = map[string]eC17{"a": in[0], "b": in[1]}
+	case 2:
+		data = [3]eC17{in[0], in[1], in[2]}
 	}
 	s0 := vSyncEvents()
 	vMonitorStart(f, data)
